@@ -39,4 +39,53 @@ int w16_keep_val(const std::vector<int>& keys, std::vector<int>& table) {
     for (int k : keys) { if (!have || k != last_key) { last_key = k; val = table[k]; have = true; } t += val; table[0] = t; }
     return t;
 }
+// N9 local flags: a flag that is set after the last thing that can throw is still false in the handler, and true after the try
+void may_throw();
+void undo();
+void done();
+void w17_subst_armed() {
+    bool armed = false;
+    try { may_throw(); armed = true; } catch (...) { if (armed) undo(); throw; }
+    if (armed) done();
+}
+// ... but not when something can throw after the store
+void w18_keep_armed() {
+    bool armed = false;
+    try { armed = true; may_throw(); } catch (...) { if (armed) undo(); throw; }
+}
+// N9 jump threading + N10 store splitting: a result flag and value set in both branches and tested right after
+int w19_subst_found(const std::vector<int>& v, int k) {
+    bool found; int index;
+    if (v.empty()) { found = false; index = 0; } else { found = true; index = v[0] + k; }
+    if (found) return index;
+    return -1;
+}
+// N10 must not split a local that is read after the branches joined
+int w20_keep_index(const std::vector<int>& v, int k) {
+    int index = 0;
+    if (v.empty()) { index = 1; may_throw(); } else { index = v[0] + k; may_throw(); }
+    return index;
+}
+// N6b hit/miss memo: removed when every write to what the lookup reads is followed by an invalidation
+int w21_subst_mval(const std::vector<int>& keys, std::vector<int>& table) {
+    bool have = false; int mkey = 0; int mval = 0; int t = 0;
+    for (int k : keys) {
+        int out = 0;
+        if (have && mkey == k) { out = mval; t += out; }
+        else { int e = table[k]; mkey = k; mval = e; have = true; out = e; t += out; }
+        if (t > 100) { table[0] = t; have = false; }
+    }
+    return t;
+}
+// ... kept when a write is not followed by one
+int w22_keep_mval(const std::vector<int>& keys, std::vector<int>& table) {
+    bool have = false; int mkey = 0; int mval = 0; int t = 0;
+    for (int k : keys) {
+        int out = 0;
+        if (have && mkey == k) { out = mval; t += out; }
+        else { int e = table[k]; mkey = k; mval = e; have = true; out = e; t += out; }
+        if (t > 100) { table[0] = t; }
+    }
+    return t;
+}
 }
